@@ -210,6 +210,7 @@ def worker_collect(task):
         "shard": shard,
         "evals": 0,
         "nt_digests": set(),
+        "nt_count": 0,
         "events": {},
         "buckets": {},  # sig -> {"count", "case", "detail"}
         "samples": [],
@@ -223,6 +224,7 @@ def worker_collect(task):
         for ev in ctx.events:
             out["events"][ev] = out["events"].get(ev, 0) + 1
         if ctx.nt:
+            out["nt_count"] += 1
             d = case_digest(case)
             if d not in out["nt_digests"]:
                 out["nt_digests"].add(d)
@@ -478,6 +480,7 @@ def main(argv=None):
             r["clause"],
             {
                 "evaluations": 0,
+                "nt_count": 0,
                 "nt": set(),
                 "events": {},
                 "buckets": {},
@@ -486,6 +489,7 @@ def main(argv=None):
             },
         )
         pc["evaluations"] += r["evals"]
+        pc["nt_count"] += r.get("nt_count", 0)
         pc["nt"].update(r["nt_digests"])
         pc["exhaustive"] = pc["exhaustive"] or r["exhaustive"]
         for k, v in r["events"].items():
@@ -576,7 +580,9 @@ def main(argv=None):
         if pc is None or pc["evaluations"] == 0:
             degenerate.append("%s: no cases" % c.name)
             continue
-        frac = len(pc["nt"]) / float(pc["evaluations"])
+        # the floor guards against a vacuous generator: fraction of generated cases that are non-trivial
+        # (duplicates included; the evidence reports the DISTINCT non-trivial count separately)
+        frac = pc["nt_count"] / float(pc["evaluations"])
         if frac < c.nt_floor and not pc["exhaustive"]:
             degenerate.append(
                 "%s: non-trivial fraction %.3f < floor %.2f" % (c.name, frac, c.nt_floor)
@@ -598,6 +604,7 @@ def main(argv=None):
         clause_cov[c.name] = {
             "evaluations": pc["evaluations"],
             "distinct_nontrivial": len(pc["nt"]),
+            "nontrivial_evaluations": pc["nt_count"],
             "rule": c.rule,
             "events": ev,
             "exhaustive": pc["exhaustive"],
